@@ -355,6 +355,8 @@ func ruleC15Wrappers(c *Ctx, r *R) {
 
 var _ = late(func() {
 	p := properties["C15"]
+	p.Rules = append(p.Rules, &Rule{ID: "C15.initial-dedup", Floor: 1, Clause: "same rule as C05.initial-dedup: the array PriorityQueue.Iterate walks is the one NewPriorityQueue handed to the heap, which must be the de-duplicated list - otherwise an unchanged queue yields a key twice",
+		Run: rulePQInitial})
 	p.Rules = append(p.Rules, &Rule{ID: "C15.snapshot-atomic", Floor: 1, Clause: "the heap iterator captures its snapshot of the backing slice and the generation at the same point (same block): a change between the two captures would go unnoticed",
 		Run: func(c *Ctx, r *R) {
 			n := 0
